@@ -224,3 +224,118 @@ func (o *Once) Do(f func()) {
 		f()
 	}
 }
+
+// Map is a scheduler-aware sync.Map: every operation is a visible operation on the map object.
+type Map struct {
+	id   uint64
+	keys []any
+	vals []any
+}
+
+func (m *Map) oid() uint64 {
+	if m.id == 0 {
+		m.id = vrt.NewObj()
+	}
+	return m.id
+}
+func (m *Map) step(kind string) {
+	if vrt.Active() {
+		vrt.Yield(vrt.Op{Kind: kind, Obj: m.oid()})
+		vrt.RaceAcquire(m.id)
+		vrt.RaceReleaseMerge(m.id)
+	}
+}
+func (m *Map) find(k any) int {
+	for i, x := range m.keys {
+		if x == k {
+			return i
+		}
+	}
+	return -1
+}
+func (m *Map) Load(k any) (any, bool) {
+	m.step("mapload")
+	if i := m.find(k); i >= 0 {
+		return m.vals[i], true
+	}
+	return nil, false
+}
+func (m *Map) Store(k, v any) {
+	m.step("mapstore")
+	if i := m.find(k); i >= 0 {
+		m.vals[i] = v
+		return
+	}
+	m.keys, m.vals = append(m.keys, k), append(m.vals, v)
+}
+func (m *Map) LoadOrStore(k, v any) (any, bool) {
+	m.step("maploadorstore")
+	if i := m.find(k); i >= 0 {
+		return m.vals[i], true
+	}
+	m.keys, m.vals = append(m.keys, k), append(m.vals, v)
+	return v, false
+}
+func (m *Map) LoadAndDelete(k any) (any, bool) {
+	m.step("maploaddelete")
+	if i := m.find(k); i >= 0 {
+		v := m.vals[i]
+		m.keys = append(m.keys[:i:i], m.keys[i+1:]...)
+		m.vals = append(m.vals[:i:i], m.vals[i+1:]...)
+		return v, true
+	}
+	return nil, false
+}
+func (m *Map) Delete(k any) { m.LoadAndDelete(k) }
+func (m *Map) Swap(k, v any) (any, bool) {
+	m.step("mapswap")
+	if i := m.find(k); i >= 0 {
+		old := m.vals[i]
+		m.vals[i] = v
+		return old, true
+	}
+	m.keys, m.vals = append(m.keys, k), append(m.vals, v)
+	return nil, false
+}
+func (m *Map) CompareAndSwap(k, old, new any) bool {
+	m.step("mapcas")
+	if i := m.find(k); i >= 0 && m.vals[i] == old {
+		m.vals[i] = new
+		return true
+	}
+	return false
+}
+func (m *Map) Range(f func(k, v any) bool) {
+	m.step("maprange")
+	ks, vs := append([]any(nil), m.keys...), append([]any(nil), m.vals...)
+	for i := range ks {
+		if !f(ks[i], vs[i]) {
+			return
+		}
+	}
+}
+func (m *Map) Clear() { m.step("mapclear"); m.keys, m.vals = nil, nil }
+
+// Pool never re-uses an object: re-use is an optimisation the program must not depend on.
+type Pool struct {
+	New func() any
+}
+
+func (p *Pool) Get() any {
+	if p.New != nil {
+		return p.New()
+	}
+	return nil
+}
+func (p *Pool) Put(any) {}
+
+// OnceFunc / OnceValue as in package sync.
+func OnceFunc(f func()) func() {
+	var o Once
+	return func() { o.Do(f) }
+}
+func OnceValue[T any](f func() T) func() T {
+	var o Once
+	var v T
+	return func() T { o.Do(func() { v = f() }); return v }
+}
